@@ -12,7 +12,7 @@ META = {
         "discipline in the 30-day producer): sell-time quantity = min(remaining, available ÷ ratio); buy-time quantity = that × "
         "ratio; Match.quantity and `remaining −=` take the sell-time term, the future claim and the cost take the buy-time term. "
         "R4 (variant coverage): every function that walks the transaction slice, reads both Buy.amount and Sell.amount and keeps "
-        "per-lot share counts across dates must also read Split.ratio and Unsplit.ratio. Does not compare with a rescaled ledger. R6: a function that re-writes the size of an acquisition lot re-writes every share counter booked against it too (a lot is restated whole or not at all). R7: every SPLIT/UNSPLIT line of a day is applied (shared with C01-R2)."),
+        "per-lot share counts across dates must also read Split.ratio and Unsplit.ratio. Does not compare with a rescaled ledger. R6: a function that re-writes the size of an acquisition lot re-writes every share counter booked against it too (a lot is restated whole or not at all). R7: every SPLIT/UNSPLIT line of a day is applied (shared with C01-R2). R8: some update of the look-ahead's ratio is reachable for lines dated on the sale's own date (known finding: every update lies behind days ≥ 1, so a sale-day SPLIT is ignored)."),
     "trusted_base": ["rust_decimal arithmetic", "rustc MIR + resolution"],
 }
 
@@ -289,9 +289,80 @@ def run(ctx, rep):
     import rules.c02 as c02
     c02.same_security(R, rep, "R5")
     lots_restated_whole(R, rep)
+    lookahead_ratio_dates(R, rep, "R8", None)
     # every SPLIT/UNSPLIT line of a day is applied (shared with C01-R2 / C09-R8)
     import rules.c01 as c01
     c01.every_line_of_day(R, rep, "R7", only=("apply splits",))
+
+
+def lookahead_ratio_dates(R, rep, rule_sale_day="R8", rule_same_day=None):
+    """The day loop applies a date's SPLIT/UNSPLIT lines AFTER that date's trades. The ratio by which the 30-day look-ahead rescales a
+    candidate purchase therefore covers the splits dated from the sale's own date up to the day BEFORE the candidate. Two structural
+    necessary conditions are decided here:
+    R8 (C10) — some update of the look-ahead's ratio is reachable for lines dated ON the sale's date. If every update lies behind
+    `days ≥ 1`, a SPLIT on the sale's date is never counted and the leg is matched in the wrong units.
+    R7 (C06) — the ratio a candidate purchase is rescaled with is not the very accumulator that the SPLIT lines of the candidate's own
+    date update line by line in the same loop; otherwise the leg depends on whether the SPLIT is written above or below the BUY."""
+    import rules.c01 as c01
+    import rules.c02 as c02
+    from mir import parse_callee
+    F = R.F
+    b, sites = R.leg("BedAndBreakfast")
+    tb = R.terms(b, 0)
+    # the window term (num_days of candidate date − sale date), as in C01-R3
+    wterm = None
+    for i, t in b.calls():
+        if parse_callee(t["callee"])[2] == "num_days":
+            wterm = tb.call_term(t)
+    if wterm is None and sites:
+        for cond, val, s_ in guards_of(b, tb, sites[0][0]):
+            for x in subterms(cond):
+                if isinstance(x, tuple) and x and x[0] == "call" and parse_callee(x[1])[2] == "num_days" and wterm is None:
+                    wterm = x
+    upd = []
+    for i, t in b.calls():
+        k = is_decimal_arith_assign(t["callee"])
+        cb = F.bodies.get(t["callee"])
+        is_ratio = cb is not None and cb.crate == b.crate and cb.kind in ("fn", "method") and c02._touches_ratio(R, cb)
+        inline_ratio = k in ("MulAssign", "DivAssign") and any(
+            isinstance(x, tuple) and len(x) == 3 and x[0] == "field" and x[2] == "ratio" for a in t["args"][1:] for x in subterms(tb.operand(a)))
+        if (is_ratio or inline_ratio) and b.in_loop(i):
+            upd.append((i, t))
+    if not upd or wterm is None:
+        rep.note(f"{rule_sale_day}: no ratio update inside the look-ahead loop of {b.short} (or no day difference) — the dates covered by the ratio are not judged")
+        return
+    if rule_sale_day:
+        los = []
+        for i, t in upd:
+            elo = -c01.INF
+            for cond, val, s_ in guards_of(b, tb, i):
+                iv = c01.interval_of(cond, truth(val), wterm)
+                if iv is not None:
+                    elo = max(elo, iv[0])
+            los.append(elo)
+        ok = any(lo < 1 for lo in los)
+        rep.ob(rule_sale_day, "30-day:ratio-covers-sale-day", ok,
+               "a SPLIT/UNSPLIT dated on the sale's own day can reach the look-ahead's ratio" if ok else
+               "every update of the look-ahead's ratio lies behind `days ≥ 1`: a SPLIT/UNSPLIT on the sale's own date (which the day loop applies after that day's sales) "
+               "is never counted, so a later purchase in post-split shares is matched one for one with pre-split shares sold",
+               b.loc(upd[0][1]["sp"]), key=f"{rule_sale_day}:lookahead:sale-day-split-ignored")
+    if rule_same_day and sites:
+        q = agg_fields(sites[0][1])["quantity"]
+        st = sell_time_ratio(q)
+        ratio = st[2] if st else None
+        same = False
+        if isinstance(ratio, tuple) and ratio and ratio[0] == "var":
+            for i, t in upd:
+                terms = [tb.operand(a) for a in t["args"]]
+                d = t.get("dest")
+                dn = b.local_name(d["l"]) if d is not None and not d.get("p") and hasattr(b, "local_name") else None
+                if any(isinstance(a, tuple) and a and a[0] == "var" and a[1] == ratio[1] for a in terms) or dn == ratio[1]:
+                    same = True
+        rep.ob(rule_same_day, "30-day:ratio-as-of-previous-day", not same,
+               "the ratio used for a candidate purchase is not the accumulator its own date's SPLIT lines update" if not same else
+               f"the look-ahead rescales a candidate purchase with `{ratio[1]}`, the accumulator that SPLIT/UNSPLIT lines update one line at a time in the same loop: "
+               "a SPLIT dated on the purchase's own day counts if it is written above the BUY and not if below, while the day loop books the day's purchases before its splits",
+               b.loc(upd[0][1]["sp"]), key=f"{rule_same_day}:lookahead:same-day-split-line-order")
 
 
 def lots_restated_whole(R, rep, rule="R6"):
